@@ -98,6 +98,48 @@ def filtered_ancestor(tier):
     return out
 
 
+# the right operand derives from the left operand's base through an INTERMEDIATE frame with columns of its own
+# (SH.k = A.k + 1, SH.w = A.v); the condition names the right column through that intermediate frame, not through the operand
+SH = ["sel", A, [[b("Add", nref("k"), ["lit", 1]), "k"], [nref("v"), "w"]]]
+BIG = ["where", SH, b("Lt", nref("w"), ["lit", 25])]
+BIGL = ["limit", BIG, 10]
+
+
+def intermediate_frame(tier):
+    out = []
+    for how in ONE_PER_KIND:
+        if how == "cross":
+            continue
+        for right, through in ((BIG, SH), (BIGL, BIG), (["proj", BIG, ["k", "w"]], BIG)):
+            if tier == "quick" and right is not BIG and how not in ("inner", "left", "semi"):
+                continue
+            out.append(case(A, [step(right, exprs([b("Eq", dref(A, "k"), dref(through, "k"))]), how)], None, "std", "intermediate-frame"))
+            out.append(case(A, [step(right, exprs([b("Eq", dref(A, "v"), dref(through, "w"))]), how)], None, "std", "intermediate-frame"))
+        out.append(case(A, [step(BIG, exprs([b("Eq", dref(A, "k"), dref(SH, "k")), b("Ge", dref(A, "v"), dref(SH, "w"))], True), how)],
+                        None, "std", "intermediate-frame"))
+    # the intermediate frame on the LEFT: the left operand is the filtered frame, the condition goes through its parent
+    for how in ("inner", "left", "anti"):
+        out.append(case(BIG, [step(A, exprs([b("Eq", dref(SH, "k"), dref(A, "k"))]), how)], None, "std", "intermediate-frame"))
+    return out
+
+
+def rename_after_join(tier):
+    """withColumnRenamed on a join result with duplicate column names (PySpark renames every column of that name)"""
+    out = []
+    kk = names(["k"], True)
+    e_ab = exprs([b("Eq", dref(A, "k"), dref(B, "k"))])
+    for how in ("inner", "left", "full", "cross"):
+        for on in ((e_ab, None) if how != "cross" else (None,)):
+            for old in ("k", "v", "s"):
+                out.append(case(A, [step(B, on, how)], ["rename", old, "z"], "std", "rename-after-join"))
+    for how in ("inner", "left"):
+        out.append(case(A, [step(B, kk, how)], ["rename", "v", "z"], "std", "rename-after-join"))
+        out.append(case(A, [step(B, kk, how)], ["rename", "k", "z"], "std", "rename-after-join"))
+        out.append(case(A, [step(B, e_ab, how), step(C, exprs([b("Eq", dref(A, "k"), dref(C, "k"))]), how)], ["rename", "k", "z"], "std", "rename-after-join"))
+    out.append(case(al_a, [step(al_b, exprs([b("Eq", aref("a", "k"), aref("b", "k"))]), "inner")], ["rename", "s", "z"], "std", "rename-after-join"))
+    return out
+
+
 def on_forms(l, r, lref, rref):
     """the five ways of giving the condition (a name, a list of names -- of one and of two keys --, an expression,
     a list of expressions, none); lref/rref build a reference to a column of the left/right DataFrame"""
@@ -280,7 +322,7 @@ def corpus():
 
 def gen_cases(rnd, tier, n_chains=None):
     cs = (corpus() + single_joins(tier) + joins_then(tier) + chains(rnd, n_chains or (100 if tier == "quick" else 2500))
-          + filtered_ancestor(tier))
+          + filtered_ancestor(tier) + intermediate_frame(tier) + rename_after_join(tier))
     seen, out = set(), []
     for c in cs:
         k = cc.key({x: c[x] for x in ("left", "steps", "fin", "data")})
@@ -312,6 +354,12 @@ def collisions(case, i):
     on = case["steps"][i]["on"]
     keys = set(on[1]) if on and on[0] == "names" else set()
     return (set(cc.df_cols(tabs[i + 1])) & before) - keys
+
+
+def fin_exprs(fin):
+    if fin is None or fin[0] == "rename":
+        return []
+    return [fin[1]] if fin[0] == "where" else [x for x, _ in fin[1]]
 
 
 def spark_names(case):
@@ -379,7 +427,7 @@ def signature(case, raised):
             if kinds[i] == "full" and i + 1 < len(steps):
                 return "C02/chain/join-after-full-outer-name-join-rebuilds-key-from-left-table"
             if kinds[i] == "full" and fin is not None:
-                bare = [r[1] for e in ([fin[1]] if fin[0] == "where" else [x for x, _ in fin[1]])
+                bare = [r[1] for e in fin_exprs(fin)
                         for r in cc.refs_of(e) if r[0] == "name"]
                 if ks & set(bare):
                     return "C02/full-outer-name-join/key-referenced-by-name-afterwards"
@@ -410,7 +458,7 @@ def signature(case, raised):
     if len(steps) >= 2 and cc.df_base(case["left"]) == cc.df_base(steps[0]["right"]):
         later_refs = [r for s2 in steps[1:] if s2["on"] and s2["on"][0] == "exprs" for e in s2["on"][1] for r in cc.refs_of(e)]
         if fin is not None:
-            later_refs += [r for e in ([fin[1]] if fin[0] == "where" else [x for x, _ in fin[1]]) for r in cc.refs_of(e)]
+            later_refs += [r for e in fin_exprs(fin) for r in cc.refs_of(e)]
         if any(r[0] == "df" for r in later_refs):
             return "C02/common-ancestor/reference-through-dataframe-in-longer-chain"
     if case.get("shape") == "common-ancestor" and steps and steps[0]["on"] and steps[0]["on"][0] == "exprs":
